@@ -287,3 +287,81 @@ func c15Engine(c *core.Ctx) {
 	c.Check(bad == "", rC15Engine, f.Name+":RuleFired", f.Decl.Pos(), fmt.Sprintf("%d events over the plain rule and its two delta variants cite the program's rule with matching premise facts", n), bad)
 	c.Check(sameBad == "", rC15Engine, f.Name+":same-result", f.Decl.Pos(), "identical derived facts with and without a recorder", sameBad)
 }
+
+const rC15Events = "ORDABS.events-for-is-exact"
+
+// c15EventsFor: MemoryRecorder.EventsFor returns exactly the events whose output equals the queried atom, also
+// when different atoms share a hash (the index is keyed by the 64-bit atom hash).
+func c15EventsFor(c *core.Ctx, r *c15Rig) {
+	c.Rule(rC15Events, "MemoryRecorder (RuleFired, add, EventsFor) is read from source and evaluated with an atom hash under which all atoms collide, and with an injective one: EventsFor(a) returns exactly the recorded events whose output equals a, in recording order - a proof is never assembled from the derivation of another fact that merely shares the hash", 2)
+	newRec := c.MustFunc(rC15Events, "provenance", "NewMemoryRecorder")
+	fired := c.MustFunc(rC15Events, "provenance", "MemoryRecorder.RuleFired")
+	evFor := c.MustFunc(rC15Events, "provenance", "MemoryRecorder.EventsFor")
+	if newRec == nil || fired == nil || evFor == nil {
+		return
+	}
+	in := r.in
+	saved := in.Stubs["ast.Atom.Hash"]
+	defer func() { in.Stubs["ast.Atom.Hash"] = saved }()
+	for _, mode := range []string{"injective", "all-collide"} {
+		if mode == "all-collide" {
+			in.Stubs["ast.Atom.Hash"] = func(in *ordabs.Interp, _ ordabs.Value, _ []ordabs.Value) ([]ordabs.Value, error) {
+				return []ordabs.Value{int64(7)}, nil
+			}
+		}
+		call := func(f *core.Func, recv ordabs.Value, args ...ordabs.Value) ([]ordabs.Value, bool) {
+			in.Reset()
+			in.Fuel = 300000
+			out, err := in.Call(f, recv, args)
+			if !runORD(c, rC15Events, f.Name+":"+mode, f, err) {
+				return nil, false
+			}
+			return out, true
+		}
+		out, ok := call(newRec, nil)
+		if !ok {
+			return
+		}
+		rec := out[0]
+		heads := []string{"p(1)", "p(2)", "q(1)", "p(1)", "p(2,1)", "p(2)", "p(1)"}
+		rule := r.q.clause(hClause{headPred: "p", head: []hTerm{hv("X")}, prems: []hPrem{{kind: "atom", pred: "e", args: []hTerm{hv("X")}}}})
+		for i, h := range heads {
+			pf := []ordabs.Value{r.atomRec(fmt.Sprintf("e(%d)", i))}
+			if _, ok := call(fired, rec, rule, r.atomRec(h), &ordabs.Obj{Name: "subst", Opaque: true}, &ordabs.Slice{Elems: &pf}); !ok {
+				return
+			}
+		}
+		bad := ""
+		for _, goal := range []string{"p(1)", "p(2)", "q(1)", "p(2,1)", "p(3)", "q(2)"} {
+			out, ok := call(evFor, rec, r.atomRec(goal))
+			if !ok {
+				return
+			}
+			var got, want []string
+			if sl, _ := out[0].(*ordabs.Slice); sl != nil && sl.Elems != nil {
+				for _, e := range *sl.Elems {
+					eo, _ := e.(*ordabs.Obj)
+					if eo == nil {
+						got = append(got, "?")
+						continue
+					}
+					pfs, _ := eo.Fields["PremiseFacts"].(*ordabs.Slice)
+					tag := "?"
+					if pfs != nil && pfs.Elems != nil && len(*pfs.Elems) == 1 {
+						tag = atomString((*pfs.Elems)[0])
+					}
+					got = append(got, atomString(eo.Fields["Output"])+"<-"+tag)
+				}
+			}
+			for i, h := range heads {
+				if h == goal {
+					want = append(want, fmt.Sprintf("%s<-e(%d)", h, i))
+				}
+			}
+			if strings.Join(got, " ") != strings.Join(want, " ") && bad == "" {
+				bad = fmt.Sprintf("%s hashes: after recording derivations of [%s], EventsFor(%s) returns [%s], want [%s]", mode, strings.Join(heads, " "), goal, strings.Join(got, " "), strings.Join(want, " "))
+			}
+		}
+		c.Check(bad == "", rC15Events, evFor.Name+":"+mode, evFor.Decl.Pos(), "7 recorded derivations, 6 lookups: exactly the events of the queried atom", bad)
+	}
+}
